@@ -12,5 +12,5 @@ if [ -n "${VERIF_EXTRA_OVERLAY:-}" ]; then SUF="-x$(echo "$VERIF_EXTRA_OVERLAY" 
 GORACE="halt_on_error=1 exitcode=66" "$B/bin/racepass$SUF" "${1:-40}" > "$B/racepass$SUF.log" 2>&1
 rc=$?
 grep -m1 -A24 "WARNING: DATA RACE" "$B/racepass$SUF.log"
-grep "^racepass:" "$B/racepass$SUF.log"
+grep "^racepass" "$B/racepass$SUF.log"
 exit $rc
